@@ -39,7 +39,7 @@ ASSUMPTIONS = ['integer oversampling factor; finite non-zero pixel scales, focal
                'fields are 2-d with positive dimensions (every Wavefront * Pupil product); pupil no larger than the FFT grid '
                'for the comparison with propagate_dft; square pixels for that comparison',
                'input samples (Gaussian integer) x (L-th root of unity), L <= 96; comparison tolerance 1e-9*(1+max|ref|)']
-RULE = ('image-plane wavefronts (lentil.Image; the reverse direction) in every family; second legs of relays (propagate_fft output fed back, directly or rebuilt through lentil.Image; oracle only); large grids (> 1000 rows, >= 2**20 samples; oracle only); amplitudes as np.ma.MaskedArray / np.matrix and scaled by 1e-13..1e6 (results compared relative to the scale); 0-d and one-element argument forms; wavelengths 1 ppm off a whole grid; every case is evaluated in a forked child that starts from the freshly imported library (no state leaks between cases; replays are self-contained); the same call repeated with one argument changed (oversample at a fixed wavelength, shape, scratch use); multi-field wavefronts (explicit Fields appended to Wavefront.data, segments) with tilt lists of different lengths incl. empty in every position (Plane.tilt shorter than the segments, per-field lists) - all must be refused, the untilted ones propagated; argument forms (scalar/tuple/list/array pixelscale, int/tuple/list/array shape, numpy-integer oversample) and amplitude dtypes (int, bool, float32, float64, complex); histories of 1..4 propagate_fft calls sharing one scratch buffer (none / exactly scratch_shape(all wavelengths) / larger / '
+RULE = ('shape / oversample given in small-width integer dtypes (uint8, int8, uint16, int16; array, list of numpy scalars, numpy scalar) with shape*oversample beyond the dtype range on grids big enough to accept it (oracle only); calls made under np.errstate(all=raise/ignore/warn) with the error state checked before == after; every result held across the later calls of its history and re-compared at the end; image-plane wavefronts (lentil.Image; the reverse direction) in every family; second legs of relays (propagate_fft output fed back, directly or rebuilt through lentil.Image; oracle only); large grids (> 1000 rows, >= 2**20 samples; oracle only); amplitudes as np.ma.MaskedArray / np.matrix and scaled by 1e-13..1e6 (results compared relative to the scale); 0-d and one-element argument forms; wavelengths 1 ppm off a whole grid; every case is evaluated in a forked child that starts from the freshly imported library (no state leaks between cases; replays are self-contained); the same call repeated with one argument changed (oversample at a fixed wavelength, shape, scratch use); multi-field wavefronts (explicit Fields appended to Wavefront.data, segments) with tilt lists of different lengths incl. empty in every position (Plane.tilt shorter than the segments, per-field lists) - all must be refused, the untilted ones propagated; argument forms (scalar/tuple/list/array pixelscale, int/tuple/list/array shape, numpy-integer oversample) and amplitude dtypes (int, bool, float32, float64, complex); histories of 1..4 propagate_fft calls sharing one scratch buffer (none / exactly scratch_shape(all wavelengths) / larger / '
         'one short), initial scratch content random Gaussian integers; pupils 2..9 x 2..9 (Gaussian-integer amplitude with zero '
         'borders, optional OPD = k*lambda/Lp, optional two-segment mask), wavelength chosen so that the grid is 2..16 of either '
         'parity (1/alpha = N + delta, delta in {0, +-1/4, +-1/3, +-2/5, +-1/2}), oversample 1..3, shapes None / accepted / one too '
@@ -162,6 +162,8 @@ def gen_step(rng, geo, nmax, Nmax, force_tilt=None, aniso=False):
         st['amp_scale'] = rng.choice([-13, -9, -9, 6])     # every operation is linear: amplitudes over many decades
     if 'du_form' not in st and rng.random() < 0.1:
         st['du_form'] = rng.choice(['0d', 'one'])
+    if rng.random() < 0.25:
+        st['errstate'] = rng.choice(['raise', 'ignore', 'warn'])    # results and refusals must not depend on it
     if st['shape'] is not None and st['shape'][0] == st['shape'][1] and rng.random() < 0.15:
         st['shape_form'] = '0d'
     return st
@@ -263,6 +265,8 @@ def generate(rng, tier):
             yield gen_relay(rng, tier)
     for k in range(2 if tier == 'quick' else 6):
         yield gen_large(rng, k)
+    for k in range(4 if tier == 'quick' else 16):
+        yield gen_narrow(rng, k)
 
 
 # ------------------------------------------------------------------ implementation side
@@ -475,6 +479,7 @@ def _run_inner(c):
                 shp[sc['dim']] = max(1, shp[sc['dim']] - 1)
             scratch = garbage(sc['seed'], shp)
             info['scratch_shape'] = shp
+    held = []
     for st, lam, os_ in zip(c['steps'], lams, oss):
         r = {'os': os_}
         du_call, shape_call, os_call = arg_forms(st, du, os_)
@@ -493,8 +498,19 @@ def _run_inner(c):
         use = st.get('use_scratch', True) and scratch is not None
         r['used_scratch'] = bool(use)
         shape = None if st['shape'] is None else tuple(st['shape'])
-        out, err = call(lentil.propagate_fft, w, du_call, shape=shape_call, oversample=os_call,
-                        scratch=scratch if use else None)
+        es = st.get('errstate')
+        if es:
+            before = np.geterr()
+            with np.errstate(all=es):
+                inside = np.geterr()
+                out, err = call(lentil.propagate_fft, w, du_call, shape=shape_call, oversample=os_call,
+                                scratch=scratch if use else None)
+                r['errstate_kept'] = (np.geterr() == inside)
+            r['errstate_kept'] = bool(r['errstate_kept'] and np.geterr() == before)
+        else:
+            out, err = call(lentil.propagate_fft, w, du_call, shape=shape_call, oversample=os_call,
+                            scratch=scratch if use else None)
+        held.append((r, out, amp_scale(st)))
         # the grid the implementation uses: the full-grid call (on the same wavefront without its tilt metadata);
         # if that fails, the advertised scratch shape
         full, ferr = call(lentil.propagate_fft, build_wavefront(lentil, st, geo, lam, tilt=False), du_arg, shape=None,
@@ -533,6 +549,10 @@ def _run_inner(c):
                     d, e4 = call(lentil.propagate_dft, w2, du_arg, shape=shape, oversample=os_)
                 r['dft'] = e4 if e4 else np.array(d.field) / sc_
         info['steps'].append(r)
+    # every result was held while the later calls of the history ran: it must still be what it was
+    for r, out, sc_h in held:
+        if out is not None and 'field' in r:
+            r['held_ok'] = bool(np.array_equal(np.array(out.field) / sc_h, r['field']))
     return info
 
 
@@ -545,7 +565,7 @@ def run_impl_hist(c):
     out = {'iso': info['iso'], 'advertised': info.get('advertised'), 'scratch_shape': info.get('scratch_shape'), 'steps': []}
     for r in info['steps']:
         d = {k: r.get(k) for k in ('tilted', 'tilts', 'os', 'N', 'adv1', 'used_scratch', 'err', 'shape', 'wavelength',
-                                   'pixelscale', 'ptype', 'wshape', 'wptype', 'full_err', 'full_wl')}
+                                   'pixelscale', 'ptype', 'wshape', 'wptype', 'full_err', 'full_wl', 'errstate_kept', 'held_ok')}
         for k in ('field', 'plain', 'exact', 'dft'):
             if k in r:
                 d[k] = r[k]
@@ -743,6 +763,10 @@ def oracle_hist(c, impl):
             if r['used_scratch'] and c['scratch']['kind'] == 'exact':
                 what = f'with a scratch buffer of exactly scratch_shape(all wavelengths) = {sshape} '
             return f'call {k}: an acceptable call {what}(grid {N}, shape {shape}, oversample {os_}) raised {err}'
+        if r.get('errstate_kept') is False:
+            return f'call {k}: propagate_fft changed the caller\'s numpy error state (np.errstate(all={st.get("errstate")!r}))'
+        if r.get('held_ok') is False:
+            return f'call {k}: the field of its result changed while later calls of the history ran (the result shares memory with library state)'
         want = list(N) if shape is None else [shape[0] * os_, shape[1] * os_]
         if r['shape'] != want or list(np.asarray(r['field']).shape) != want:
             return f'call {k}: output shape {r["shape"]} (field {list(np.asarray(r["field"]).shape)}), expected {want}'
@@ -979,6 +1003,27 @@ def gen_large(rng, k):
             'shape': [rng.randint(2, 9), rng.randint(2, 9)], 'seed': rng.randint(0, 10 ** 6), 'cplx': rng.random() < 0.5}
 
 
+def gen_narrow(rng, k):
+    """shape or oversample given in a small-width integer dtype whose range the product shape*oversample leaves:
+    the arithmetic must not wrap (same result as with Python ints)"""
+    dt, lo, hi = [('uint8', 128, 140), ('int8', 64, 90), ('uint8', 86, 100), ('uint16', 3, 9)][k % 4]
+    os_ = 3 if (k % 4) == 2 else 2
+    s = [rng.randint(lo, hi), rng.randint(lo, hi)]
+    if rng.random() < 0.3:
+        s[1] = s[0]
+    which = 'shape' if k % 4 != 3 else 'os'
+    c = {'op': 'large', 'n': rng.randint(3, 9), 'm': rng.randint(3, 9), 'N': max(s) + rng.randint(0, 7), 'delta': rng.choice(['0', '3/10']),
+         'os': os_, 'shape': s, 'seed': rng.randint(0, 10 ** 6), 'cplx': rng.random() < 0.5}
+    if which == 'shape':
+        c['shape_dtype'] = dt
+        c['shape_form'] = rng.choice(['array', 'array', 'list', 'scalar'] if s[0] == s[1] else ['array', 'array', 'list'])
+    else:
+        c['os_dtype'] = rng.choice(['uint8', 'int8', 'uint16', 'int16'])
+        c['shape'] = [rng.randint(100, 140), rng.randint(100, 140)]
+        c['N'] = max(c['shape']) + rng.randint(0, 7)
+    return c
+
+
 def _run_large(c):
     lentil = C.import_lentil()
     g = np.random.default_rng(c['seed'])
@@ -991,13 +1036,21 @@ def _run_large(c):
     mk = lambda wl: lentil.Wavefront(wl) * lentil.Pupil(amplitude=amp, pixelscale=1.0, focal_length=1.0)
     shape = tuple(c['shape'])
     r = {}
-    a, ea = call(lentil.propagate_fft, mk(lam), 1.0, shape=shape, oversample=os_)
+    shape_arg, os_arg = shape, os_
+    if c.get('shape_dtype'):
+        t = np.dtype(c['shape_dtype']).type
+        f = c.get('shape_form', 'array')
+        shape_arg = (np.array(shape, dtype=c['shape_dtype']) if f == 'array' else
+                     [t(shape[0]), t(shape[1])] if f == 'list' else t(shape[0]))
+    if c.get('os_dtype'):
+        os_arg = np.dtype(c['os_dtype']).type(os_)
+    a, ea = call(lentil.propagate_fft, mk(lam), 1.0, shape=shape_arg, oversample=os_arg)
     if ea:
         return {'err': ea}
     Ns, _ = call(lentil.scratch_shape, lam, 1.0, 1.0, 1.0, os_)
     r['N'] = [int(Ns[0]), int(Ns[1])]
     buf = np.full(tuple(r['N']), 3 - 2j)
-    b, eb = call(lentil.propagate_fft, mk(lam), 1.0, shape=shape, oversample=os_, scratch=buf)
+    b, eb = call(lentil.propagate_fft, mk(lam), 1.0, shape=shape_arg, oversample=os_arg, scratch=buf)
     d, ed = call(lentil.propagate_dft, mk(float(a.wavelength)), 1.0, shape=shape, oversample=os_)
     r['wl'] = float(a.wavelength)
     r['a'] = np.array(a.field)
@@ -1008,6 +1061,10 @@ def _run_large(c):
 
 def oracle_large(c, impl):
     what = f'pupil {c["n"]}x{c["m"]}, 1/alpha = {c["N"] * c["os"]} + {c["delta"]}, oversample {c["os"]}, shape {c["shape"]}'
+    if c.get('shape_dtype'):
+        what += f' given as {c["shape_dtype"]} {c.get("shape_form", "array")}'
+    if c.get('os_dtype'):
+        what += f', oversample given as numpy {c["os_dtype"]}'
     if 'err' in impl:
         return f'large grid ({what}): propagate_fft raised {impl["err"]}'
     for k, name in (('b', 'propagate_fft with scratch'), ('d', 'propagate_dft')):
